@@ -85,9 +85,9 @@ Print Assumptions C08_scope_refuted.
 Definition prec_lib : list cdef := [(CDef 40%positive 17%positive [] [] [(mkSym 41%positive [1%positive] [21%positive] [] [(MArg None [6%positive] [MExpr (ENum (0)%Z)]); (MArg None [5%positive] [MExpr (ENum (2)%Z)])]); (mkSym 42%positive [1%positive] [] [] [(MArg None [8%positive] [MExpr (ENum (1)%Z)]); (MArg None [5%positive] [MExpr (ENum (2)%Z)])])] []); (CDef 43%positive 17%positive [] [([40%positive], [(MArg None [42%positive] [MClass [(MArg None [8%positive] [MExpr (ENum (5)%Z)])]]); (MArg None [41%positive] [MExpr (ENum (3)%Z)])])] [] []); (CDef 44%positive 17%positive [] [] [(mkSym 45%positive [43%positive] [] [] [(MArg None [41%positive] [MExpr (ENum (10)%Z)])]); (mkSym 46%positive [43%positive] [] [] [(MArg None [42%positive] [MClass [(MArg None [8%positive] [MExpr (ENum (7)%Z)])]; MExpr (ENum (8)%Z)])])] [])].
 Example C08_example :
   model_outcome prec_lib [44%positive] =
-  OFlat [([45; 41]%positive, [iReal], [pParameter], [], [(aValue, ENum 10); (aMin, ENum 0)], 0%nat);
+  OFlat [([45; 41]%positive, [iReal], [pParam], [], [(aValue, ENum 10); (aMin, ENum 0)], 0%nat);
          ([45; 42]%positive, [iReal], [], [], [(aStart, ENum 5)], 0%nat);
-         ([46; 41]%positive, [iReal], [pParameter], [], [(aValue, ENum 3); (aMin, ENum 0)], 0%nat);
+         ([46; 41]%positive, [iReal], [pParam], [], [(aValue, ENum 3); (aMin, ENum 0)], 0%nat);
          ([46; 42]%positive, [iReal], [], [], [(aStart, ENum 7)], 0%nat)]
         [(ERef [45; 42]%positive [], ENum 2); (ERef [46; 42]%positive [], ENum 8)].
 Proof. vm_compute. reflexivity. Qed.
